@@ -13,6 +13,7 @@ import (
 	"path/filepath"
 	"reflect"
 	"sort"
+	"strconv"
 	"strings"
 )
 
@@ -208,6 +209,20 @@ func generateHarnesses(repo, prop, dir string) error {
 		}
 	}
 	b.WriteString("\t}\n}\n\n")
+	b.WriteString("// vpDocOf writes the ActivityStreams document for a value with an independent writer (terms from the jsonld tags).\nfunc vpDocOf(it Item, variant int) []byte {\n\tswitch x := it.(type) {\n")
+	for _, s := range vocab {
+		fmt.Fprintf(&b, "\tcase *%s:\n\t\tif x == nil {\n\t\t\treturn []byte(\"null\")\n\t\t}\n\t\treturn vpDoc_%s(x, variant)\n", s.Name, s.Name)
+	}
+	b.WriteString("\t}\n\treturn vpDocValue(it, variant)\n}\n\n")
+	b.WriteString("// vpFieldBox returns field number field of a vocabulary struct, boxed.\nfunc vpFieldBox(it Item, field int) any {\n\tswitch x := it.(type) {\n")
+	for _, s := range vocab {
+		fmt.Fprintf(&b, "\tcase *%s:\n\t\tswitch field {\n", s.Name)
+		for i, f := range s.Fields {
+			fmt.Fprintf(&b, "\t\tcase %d:\n\t\t\treturn x.%s\n", i, f.Name)
+		}
+		b.WriteString("\t\t}\n")
+	}
+	b.WriteString("\t}\n\treturn nil\n}\n\n")
 	b.WriteString("// vpCloneItem makes a shallow copy of a vocabulary struct behind a pointer.\nfunc vpCloneItem(a Item) Item {\n\tswitch x := a.(type) {\n")
 	for _, s := range vocab {
 		fmt.Fprintf(&b, "\tcase *%s:\n\t\tc := *x\n\t\treturn &c\n", s.Name)
@@ -254,6 +269,14 @@ func generateHarnesses(repo, prop, dir string) error {
 			fmt.Fprintf(&b, "\tif merged(%q) && !vpZero_%s(from.%s) {\n\t\tvpAssert(prefix+\"/from-wins/%s\", vpEq_%s(after.%s, from.%s))\n\t}\n", f.Name, f.Kind, f.Name, f.Name, f.Kind, f.Name, f.Name)
 		}
 		b.WriteString("}\n\n")
+		fmt.Fprintf(&b, "func vpDoc_%s(x *%s, variant int) []byte {\n\tw := &vpDocWriter{}\n", s.Name, s.Name)
+		for _, f := range s.Fields {
+			if f.Term == "" {
+				continue
+			}
+			fmt.Fprintf(&b, "\tif !vpZero_%s(x.%s) {\n\t\tvpDocMember_%s(w, %q, x.%s, variant)\n\t}\n", f.Kind, f.Name, f.Kind, f.Term, f.Name)
+		}
+		b.WriteString("\treturn w.done()\n}\n\n")
 		fmt.Fprintf(&b, "func vpSet_%s(x *%s, field, shape int, tag byte) {\n\tswitch field {\n", s.Name, s.Name)
 		for i, f := range s.Fields {
 			fmt.Fprintf(&b, "\tcase %d:\n\t\tx.%s = vpMk_%s(shape, tag)\n", i, f.Name, f.Kind)
@@ -273,6 +296,49 @@ func generateHarnesses(repo, prop, dir string) error {
 	b.WriteString("// vpItemFuncs: every exported function or method of the current tree with an Item/LinkOrIRI parameter.\nvar vpItemFuncs = []string{\n")
 	for _, n := range names {
 		fmt.Fprintf(&b, "\t%q,\n", n)
+	}
+	b.WriteString("}\n\n")
+	// every constant of type ActivityVocabularyType in the current source
+	consts, err := scanTypeConsts(repo)
+	if err != nil {
+		return err
+	}
+	b.WriteString("var vpVocabConsts = []struct {\n\tName  string\n\tValue ActivityVocabularyType\n}{\n")
+	for _, c := range consts {
+		fmt.Fprintf(&b, "\t{%q, %s},\n", c, c)
+	}
+	b.WriteString("}\n\n")
+	// every decoding entry point: methods UnmarshalJSON/UnmarshalText/GobDecode/UnmarshalBinary with a []byte parameter
+	entries, terms, err := scanDecoders(repo)
+	if err != nil {
+		return err
+	}
+	b.WriteString("var vpDecodeEntries = []string{\n")
+	for _, e := range entries {
+		fmt.Fprintf(&b, "\t%q,\n", e[0]+"."+e[1])
+	}
+	b.WriteString("\t\"UnmarshalJSON\",\n\t\"GobDecode\",\n}\n\n")
+	b.WriteString("// vpDecodeEntry calls decoding entry point i on data and returns what it produced.\nfunc vpDecodeEntry(i int, data []byte) (any, error) {\n\tswitch i {\n")
+	for i, e := range entries {
+		fmt.Fprintf(&b, "\tcase %d:\n\t\tx := new(%s)\n\t\terr := x.%s(data)\n\t\treturn x, err\n", i, e[0], e[1])
+	}
+	fmt.Fprintf(&b, "\tcase %d:\n\t\treturn UnmarshalJSON(data)\n\tcase %d:\n\t\treturn GobDecode(data)\n", len(entries), len(entries)+1)
+	b.WriteString("\t}\n\treturn nil, nil\n}\n\n")
+	b.WriteString("// vpDecoderTerms: every member name the JSON decoders look up (string literals passed to JSONGet* and Get).\nvar vpDecoderTerms = []string{\n")
+	for _, t := range terms {
+		fmt.Fprintf(&b, "\t%q,\n", t)
+	}
+	b.WriteString("}\n\n")
+	// the repository's mock documents
+	mocks, _ := filepath.Glob(filepath.Join(repo, "tests", "mocks", "*.json"))
+	sort.Strings(mocks)
+	b.WriteString("var vpMockDocs = []struct{ name, doc string }{\n")
+	for _, m := range mocks {
+		data, err := os.ReadFile(m)
+		if err != nil {
+			return err
+		}
+		fmt.Fprintf(&b, "\t{%q, %q},\n", filepath.Base(m), string(data))
 	}
 	b.WriteString("}\n\n")
 	if err := os.WriteFile(filepath.Join(dir, "gen.go"), b.Bytes(), 0o644); err != nil {
@@ -343,3 +409,108 @@ func scanItemFuncs(repo string) ([]string, error) {
 	sort.Strings(out)
 	return out, nil
 }
+
+// scanTypeConsts lists the names of all constants declared with type ActivityVocabularyType.
+func scanTypeConsts(repo string) ([]string, error) {
+	fset := token.NewFileSet()
+	files, err := filepath.Glob(filepath.Join(repo, "*.go"))
+	if err != nil {
+		return nil, err
+	}
+	var out []string
+	for _, f := range files {
+		if strings.HasSuffix(f, "_test.go") || strings.HasPrefix(filepath.Base(f), "zz_vp_") {
+			continue
+		}
+		af, err := parser.ParseFile(fset, f, nil, 0)
+		if err != nil {
+			return nil, err
+		}
+		for _, d := range af.Decls {
+			gd, ok := d.(*ast.GenDecl)
+			if !ok || gd.Tok != token.CONST {
+				continue
+			}
+			for _, sp := range gd.Specs {
+				vs := sp.(*ast.ValueSpec)
+				if vs.Type == nil || exprString(vs.Type) != "ActivityVocabularyType" {
+					continue
+				}
+				for _, n := range vs.Names {
+					out = append(out, n.Name)
+				}
+			}
+		}
+	}
+	sort.Strings(out)
+	return out, nil
+}
+
+// scanDecoders lists decoding methods (receiver type, method name) and the terms the JSON decoders look up.
+func scanDecoders(repo string) ([][2]string, []string, error) {
+	fset := token.NewFileSet()
+	files, err := filepath.Glob(filepath.Join(repo, "*.go"))
+	if err != nil {
+		return nil, nil, err
+	}
+	var entries [][2]string
+	termSet := map[string]bool{}
+	for _, f := range files {
+		if strings.HasSuffix(f, "_test.go") || strings.HasPrefix(filepath.Base(f), "zz_vp_") {
+			continue
+		}
+		af, err := parser.ParseFile(fset, f, nil, 0)
+		if err != nil {
+			return nil, nil, err
+		}
+		for _, d := range af.Decls {
+			fd, ok := d.(*ast.FuncDecl)
+			if !ok {
+				continue
+			}
+			if fd.Recv != nil && len(fd.Recv.List) == 1 {
+				switch fd.Name.Name {
+				case "UnmarshalJSON", "UnmarshalText", "GobDecode", "UnmarshalBinary":
+					if st, ok := fd.Recv.List[0].Type.(*ast.StarExpr); ok && len(fd.Type.Params.List) == 1 && exprString(fd.Type.Params.List[0].Type) == "[]byte" {
+						entries = append(entries, [2]string{exprString(st.X), fd.Name.Name})
+					}
+				}
+			}
+			if fd.Body == nil {
+				continue
+			}
+			ast.Inspect(fd.Body, func(n ast.Node) bool {
+				call, ok := n.(*ast.CallExpr)
+				if !ok {
+					return true
+				}
+				name := ""
+				switch fn := call.Fun.(type) {
+				case *ast.Ident:
+					name = fn.Name
+				case *ast.SelectorExpr:
+					name = fn.Sel.Name
+				}
+				if strings.HasPrefix(name, "JSONGet") || name == "Get" || name == "GetStringBytes" || name == "Exists" || name == "GetArray" {
+					for _, a := range call.Args {
+						if lit, ok := a.(*ast.BasicLit); ok && lit.Kind == token.STRING {
+							if t, err := strconvUnquote(lit.Value); err == nil && t != "" {
+								termSet[t] = true
+							}
+						}
+					}
+				}
+				return true
+			})
+		}
+	}
+	sort.Slice(entries, func(i, j int) bool { return entries[i][0]+"."+entries[i][1] < entries[j][0]+"."+entries[j][1] })
+	var terms []string
+	for t := range termSet {
+		terms = append(terms, t)
+	}
+	sort.Strings(terms)
+	return entries, terms, nil
+}
+
+func strconvUnquote(s string) (string, error) { return strconv.Unquote(s) }
